@@ -1,20 +1,27 @@
 import SurfProofs.Lemmas.KittyMon
+import SurfProofs.Lemmas.KittyStream
 /-!
 # C11 — kitty graphics output transmits exactly the image; draw and erase stay paired
 
-Model: `SurfModel/Kitty.lean` (`draw`, `erase`, `handleEvent`, the id functions, `SurfaceIter`).
-Specification: `SurfModel/KittySpec.lean` — the reference interpreter `kitty` of the graphics protocol
-(APC framing, control keys, `m=` chunk reassembly, RFC 4648 payload) and the property monitor `accepts`;
-the pixel content of an image is `content img` (rows top to bottom, each row left to right, RGBA).
+Model: `SurfModel/KittyStream.lean` (`drawStreaming`, `handleEventStreaming`, `runStreaming`: the handler with
+the payload streamed pixel by pixel through C14's model of `Base64Encoder`) — proved equal, and panic-free, to
+the result-based `SurfModel/Kitty.lean` (`draw`, `erase`, `handleEvent`, the id functions, `SurfaceIter`,
+payload = RFC 4648 text of all pixel bytes) in `C11_streaming_model`; the theorems about `draw` / `run` below
+therefore hold for the streaming functions (`C11_payload_streaming`, `C11_once_streaming` state it).
+Specification: `SurfModel/KittySpec.lean` — the reference interpreter `kittyWith dec` of the graphics protocol
+(APC framing, control keys, `m=` chunk reassembly, payload text decoded by `dec`), `kitty` = `kittyWith` the
+strict RFC 4648 decoder, and the property monitor `accepts`; the pixel content of an image is `content img`
+(rows top to bottom, each row left to right, RGBA).  The strict decoder is the inverse of C14's specification
+`SurfModel.Base64.rfcEncode` (`SurfProofs/Lemmas/KittyB64Link.lean`: `rfcDecode t = some d ↔ t = rfcEncode d`).
 
-A `KCmd.transmit … data chunks` read by `kitty` means: `chunks.length` commands were received, all but the
-last carrying `m=1`, the last `m=0`; `chunks` are the payload sizes, `data` the RFC 4648 decoding of the
-concatenated payload.
+A `KCmd.transmit … data chunks` read by `kittyWith dec` means: `chunks.length` commands were received, all but
+the last carrying `m=1`, the last `m=0`; `chunks` are the payload sizes, `data` what `dec` makes of the
+concatenated payload (`kittyWith some`: the reassembled text itself).
 -/
 namespace SurfProofs.C11
-open SurfModel.Kitty SurfModel.KittySpec
+open SurfModel.Kitty SurfModel.KittySpec SurfModel.KittyStream
 open SurfProofs.Lemmas.KittyIter SurfProofs.Lemmas.KittyDraw SurfProofs.Lemmas.KittyMon
-open SurfProofs.Lemmas.KittyEmit
+open SurfProofs.Lemmas.KittyEmit SurfProofs.Lemmas.KittyStream
 
 /-- **C11_payload.** Drawing a non-empty image on a fresh handler writes bytes that the protocol reads as:
 one transmission (`a=t`, `f=32`, no compression) of a non-zero id with `s` = width, `v` = height whose
@@ -41,6 +48,112 @@ theorem C11_payload (hash : Image → UInt64) (img : Image) (wf : WF img) (quiet
     cases quiet <;> rfl
   rw [hk]
   simp [drawCmds, hc, txCmd]
+
+/-- **C11_base64_link.** The RFC 4648 pieces local to C11 (`SurfModel/KittyB64.lean`) are C14's: the alphabet
+literal is the `BASE64_ENCODE` table compiled into the crate (regenerated on every run, RFC alphabet by
+`C14_tables`); `rfcEncode` — the result-based payload of `SurfModel/Kitty.lean` — is C14's specification
+`SurfModel.Base64.rfcEncode` on every input; and the strict decoder of the reference interpreter accepts a text
+as `d` exactly when the text is C14's `rfcEncode d` (it is the inverse of the specification: canonical text
+only, nothing else accepted). -/
+theorem C11_base64_link :
+    SurfModel.KittyB64.encTab = SurfModel.Generated.Base64Tables.encodeTable ∧
+    (∀ d, SurfModel.KittyB64.rfcEncode d = SurfModel.Base64.rfcEncode d) ∧
+    (∀ t d, SurfModel.KittyB64.rfcDecode t = some d ↔ t = SurfModel.Base64.rfcEncode d) :=
+  ⟨SurfProofs.Lemmas.KittyB64Link.encTab_eq_encodeTable, SurfProofs.Lemmas.KittyB64Link.rfcEncode_eq,
+    SurfProofs.Lemmas.KittyB64Link.rfcDecode_iff⟩
+
+/-- **C11_streaming_model.** The handler model that streams the payload as the code does — a `Base64Encoder`
+(C14's model: 3-byte carry, alphabet from the regenerated `BASE64_ENCODE`) created per transmission, one `write`
+of the four RGBA bytes per pixel in `SurfaceIter` order, then `finish` — never reaches a panic (no table or
+carry index out of range) and computes exactly the result-based model, for every handler state, image, event
+and history; its payload computation is C14's `encodeChunks` on the per-pixel write partition. -/
+theorem C11_streaming_model (hash : Image → UInt64) (h : Handler) :
+    (∀ img, payloadStreaming img = SurfModel.Base64.encodeChunks (img.iter.map RGBA.bytes)) ∧
+    (∀ img, payloadStreaming img = .ok (payloadOf img)) ∧
+    (∀ img row col, drawStreaming hash h img row col = .ok (draw hash h img row col)) ∧
+    (∀ ev, handleEventStreaming hash h ev = .ok (handleEvent hash h ev)) ∧
+    (∀ evs, runStreaming hash h evs = .ok (run hash h evs)) :=
+  ⟨payloadStreaming_chunks, payloadStreaming_eq, drawStreaming_eq hash h, handleEventStreaming_eq hash h,
+    fun evs => runStreaming_eq hash evs h⟩
+
+/-- the crate's streaming `Base64Decoder` (C14's model) as the payload decoder of the interpreter: the text is
+read through a reader with the given schedule into destination buffers of the given sizes; it is accepted as
+`d` iff the caller collects `d` and then sees a clean end of input (no error, no panic, sizes not exhausted) -/
+def streamDecode (sched : List Nat) (tail : Nat) (sizes : List Nat) (text : List UInt8) : Option (List UInt8) :=
+  match SurfModel.Base64.readAll (SurfModel.Base64.Dec.new ⟨text, sched, tail⟩) sizes with
+  | .eof d => some d
+  | _ => none
+
+/-- **C11_payload_streaming.** `C11_payload` over the streaming model, with the base64 step verified end to end.
+Drawing a non-empty image on a fresh handler — payload streamed pixel by pixel through the `Base64Encoder` model —
+does not panic and writes bytes which the protocol interpreter reads as one transmission (`a=t`, `f=32`, no
+compression, non-zero id, `s` = width, `v` = height) followed by one placement of that id, where
+
+* the reassembled payload `text` (`kittyWith some`: the chunks' payloads concatenated, `chunks` their sizes, each
+  at most 4096 and a multiple of four, `m=1` on all but the last) is the RFC 4648 text — C14's specification —
+  of the image's RGBA pixels in row-major order;
+* reading `text` through the model of the crate's own streaming `Base64Decoder`, under ANY schedule of the
+  underlying reader (short reads of any sizes, `Interrupted`) and any destination buffers offering room for the
+  pixels and one more non-empty read, yields exactly those pixels and then end of input — so the interpreter with
+  that decoder as its base64 step reads the transmission with `data` = the pixels;
+* the strict RFC 4648 decoder of the reference interpreter reads the same (`kitty`, as in `C11_payload`).
+
+Empty images write nothing. -/
+theorem C11_payload_streaming (hash : Image → UInt64) (img : Image) (wf : WF img) (quiet : Bool) (row col : Nat) :
+    let h0 := if quiet then Handler.new.quiet else Handler.new
+    let tx (data : List UInt8) (chunks : List Nat) : List KCmd :=
+      [.transmit false (idOf hash img) 32 img.shape.width img.shape.height none data chunks,
+       .put (idOf hash img) (placementId row col)]
+    (img.isEmpty = true → drawStreaming hash h0 img row col = .ok (h0, [])) ∧
+    (img.isEmpty = false →
+      ∃ (h1 : Handler) (bytes text : List UInt8) (chunks : List Nat),
+        drawStreaming hash h0 img row col = .ok (h1, bytes)
+        ∧ kittyWith some bytes = some (tx text chunks)
+        ∧ chunks.sum = text.length ∧ (∀ n ∈ chunks, n ≤ 4096 ∧ n % 4 = 0)
+        ∧ text = SurfModel.Base64.rfcEncode (content img).pix
+        ∧ (∀ (sched : List Nat) (tail : Nat) (pre post : List Nat) (s : Nat), 0 < s →
+            4 * (img.shape.width * img.shape.height) ≤ pre.sum →
+            SurfModel.Base64.readAll (SurfModel.Base64.Dec.new ⟨text, sched, tail⟩) (pre ++ s :: post)
+              = .eof (content img).pix
+            ∧ kittyWith (streamDecode sched tail (pre ++ s :: post)) bytes = some (tx (content img).pix chunks))
+        ∧ kitty bytes = some (tx (content img).pix chunks)
+        ∧ (content img).pix.length = 4 * (img.shape.width * img.shape.height)
+        ∧ idOf hash img ≠ 0 ∧ placementId row col ≠ 0) := by
+  intro h0 tx
+  refine ⟨fun he => by rw [drawStreaming_eq, draw_empty hash h0 img he], fun hne => ?_⟩
+  have hc : h0.contains (idOf hash img) = false := by
+    cases quiet <;> rfl
+  have hcmds : ∀ data, drawCmdsD hash h0 img row col data = tx data (chunkSizes img) := by
+    intro data; simp [drawCmdsD, hc, txCmdD, tx]
+  have htext : payloadOf img = SurfModel.Base64.rfcEncode (content img).pix := by
+    rw [payloadOf, SurfProofs.Lemmas.KittyB64Link.rfcEncode_eq, iter_bytes img wf]
+  have hlen := content_length img wf
+  have hflat : (chunks 4096 (payloadOf img)).flatten = payloadOf img :=
+    chunksGo_flatten 4096 (by decide) _ _ (Nat.le_refl _)
+  refine ⟨(draw hash h0 img row col).1, (draw hash h0 img row col).2, payloadOf img, chunkSizes img,
+    drawStreaming_eq hash h0 img row col, ?_, ?_, chunkSizes_ok img, htext, ?_, ?_, hlen, idOf_ne_zero hash img,
+    placementId_ne_zero row col⟩
+  · rw [← hcmds]
+    exact (emits_draw_with (dec := some) hash h0 wf hne rfl row col).kittyWith
+  · rw [chunkSizes, ← List.length_flatten, hflat]
+  · intro sched tail pre post s hs hpre
+    have hread : SurfModel.Base64.readAll (SurfModel.Base64.Dec.new ⟨payloadOf img, sched, tail⟩) (pre ++ s :: post)
+        = .eof (content img).pix := by
+      rw [htext]
+      exact SurfProofs.C14.C14_decode_all _ sched tail pre post s hs (by rw [hlen]; exact hpre)
+    refine ⟨hread, ?_⟩
+    rw [← hcmds]
+    refine (emits_draw_with (dec := streamDecode sched tail (pre ++ s :: post)) hash h0 wf hne ?_ row col).kittyWith
+    simp only [streamDecode, hread]
+  · rw [← hcmds]
+    exact (emits_draw hash h0 wf hne row col).kitty
+
+/-- the hypotheses of the decoding clause of `C11_payload_streaming` are satisfiable: a 1×1 image has four pixel
+bytes; the caller reads them with buffers of 3 and 1 bytes and then one more byte, from a reader that is
+interrupted and delivers one or two bytes per call -/
+example : (0 : Nat) < 1 ∧ 4 * (1 * 1) ≤ [3, 1].sum := by decide
+example : streamDecode [1, 0, 2, 0] 1 ([3, 1] ++ 1 :: []) (SurfModel.Base64.rfcEncode [9, 8, 7, 6]) = some [9, 8, 7, 6] := by
+  decide +kernel
 
 /-- **C11_row_major.** `content img` — the payload of `C11_payload` — is row-major RGBA: byte `k` of pixel
 (row, col) (the buffer element at `start + row·row_stride + col·col_stride`) sits at index
@@ -104,6 +217,14 @@ theorem C11_once (hash : Image → UInt64) (S : List Image) (hwf : ∀ img ∈ S
   cases quiet
   · exact ⟨rfl, fun e he => (by simp [Handler.new] at he), fun p hp => (by simp [Mon.init] at hp)⟩
   · exact ⟨rfl, fun e he => (by simp [Handler.new, Handler.quiet] at he), fun p hp => (by simp [Mon.init] at hp)⟩
+
+/-- **C11_once_streaming.** `C11_once` for the streaming handler model: no event of the history panics, and the
+monitor accepts everything written. -/
+theorem C11_once_streaming (hash : Image → UInt64) (S : List Image) (hwf : ∀ img ∈ S, WF img)
+    (hid : IdFaithful hash S) (quiet : Bool) (evs : List Ev) (hev : ∀ ev ∈ evs, EvOK S ev) :
+    ∃ outs, runStreaming hash (if quiet then Handler.new.quiet else Handler.new) evs = .ok outs ∧
+      accepts Mon.init ((evs.map toSpec).zip outs) = true :=
+  ⟨_, runStreaming_eq hash evs _, C11_once hash S hwf hid quiet evs hev⟩
 
 /-- **C11_pairing.** For every position with coordinates below 65536 except the recorded corner:
 `erase img (some pos)` is one deletion `d=i` carrying the same (image id, placement id) as the placement
